@@ -392,6 +392,12 @@ def run(chk):
                  "slot:a=abc", "wx:key=k", "data={{a:1}}", "data={{...o}}"]:
         srcs.append('<template name="t0">{{a}}{{p}}</template><template is="t0" %s/><v %s>x</v><block wx:for="{{l}}" %s>{{item}}</block>' % (attr, attr, attr))
         nshape += 1
+    # static-only attributes (printed with escape_html_quote) whose VALUE contains `&` followed by what looks like a character reference — named ones with
+    # digits included: printed unescaped, the second parse decodes it (round 12, C14-15)
+    for v_ in ["t&amp;sup2;", "k&amp;frac12;x", "a&amp;amp;b", "p&amp;v2;x", "q&amp;#38;", "r&amp;lt;", "&amp;there4;", "x&amp;", "&amp;&amp;sup3;y", "m&amp;#x26;n"]:
+        srcs.append('<template name="%s">[T]</template><template is="%s"/><v wx:for="{{l}}" wx:key="%s">{{item}}</v><c generic:g="%s" slot:s="%s"/>' % (v_, v_, v_, v_, "s1"))
+        srcs.append('<block wx:for="{{l}}" wx:for-item="it" wx:key="%s"><v worklet:w="%s" extra-attr:e="%s">{{it}}</v></block>' % (v_, v_, v_))
+        nshape += 2
     # text mixtures as text nodes and attribute values (the oracle side of the mixture model: fixpoint, diagnostics, behaviour)
     msrcs_, mwf = mix_sources(rng.fork("mix-oracle"), 300 if quick else 6000, mix_canon() or ["a"])
     for s_, wf in zip(msrcs_, mwf):
